@@ -3,4 +3,5 @@
 pub mod allocmon;
 pub mod client;
 pub mod recadapters;
+pub mod scripts;
 pub mod simnet;
